@@ -252,6 +252,8 @@ class VThread:
                 self.done = True
 
         SIM.spawn(self.name, body)
+        # starting a thread is a scheduling point: the new thread may run (far) ahead of its creator
+        SIM.block(pred=lambda: True)
 
     def join(self, timeout=None):
         SIM.block(until=None if timeout is None else SIM.now + timeout, pred=lambda: self.done)
@@ -325,6 +327,7 @@ def install():
                 self._sim_done = True
 
         SIM.spawn(name, body)
+        SIM.block(pred=lambda: True)
 
     def rt_join(self, timeout=None):
         SIM.block(until=None if timeout is None else SIM.now + timeout, pred=lambda: getattr(self, "_sim_done", True))
